@@ -819,4 +819,17 @@ example : run 3 (exValSites.map (·.conv)) id
 
 end containers
 
+/-! ### the `errors=` value of the named metrics is the lifted default (bridge) -/
+
+/-- `Perm.metricDifference` / `metricRatio` are defined over the defaults of `MetricFrame.difference` / `.ratio` lifted
+    into `Generated/PopulateSrc.lean` (the named metrics do not pass `errors=`); on the pinned source that is `"coerce"`,
+    the value every theorem above is stated with — a changed default changes the generated text and breaks this -/
+theorem src_named_errors_default (m : MetricPool.Metric) (meth : Aggregate.Method) (nsf : Nat)
+    (rows : List (Frame.Row MetricPool.Dat)) :
+    Perm.metricDifference m meth nsf rows =
+        Perm.scalarOf (Aggregate.difference meth .coerce (Perm.frameOf m nsf rows)) ∧
+      Perm.metricRatio m meth nsf rows = Perm.scalarOf (Aggregate.ratio meth .coerce (Perm.frameOf m nsf rows)) ∧
+      PopulateSrc.differenceDefaultErrors = .coerce ∧ PopulateSrc.ratioDefaultErrors = .coerce :=
+  ⟨rfl, rfl, rfl, rfl⟩
+
 end C12
